@@ -347,6 +347,19 @@ pub enum Drive {
     ByRefCollect,
     /// `for item in it.by_ref().take(n)` bursts, n given, then keep polling
     TakeBursts(u8),
+    /// `it.nth(0)` one at a time
+    Nth0,
+    /// `it.by_ref().fold(..)` (every item up to the first `None`), then keep polling
+    Fold,
+    /// `next()` until the first `Err` or `None`, then `collect_vec()` on the same iterator
+    PollThenCollect,
+    /// `it.nth(m)` with m >= 1 (what `skip` and `step_by` are built on), compared with the
+    /// provided implementation over `next()`
+    NthSkip(u8),
+    /// `it.count()`, compared likewise
+    Count,
+    /// `it.last()`, compared likewise
+    Last,
 }
 
 impl Drive {
@@ -356,6 +369,12 @@ impl Drive {
             Drive::CollectVec => "collect_vec".into(),
             Drive::ByRefCollect => "by_ref_collect".into(),
             Drive::TakeBursts(n) => format!("take_bursts:{}", n),
+            Drive::Nth0 => "nth0".into(),
+            Drive::Fold => "fold".into(),
+            Drive::PollThenCollect => "poll_then_collect_vec".into(),
+            Drive::NthSkip(m) => format!("nth:{}", m),
+            Drive::Count => "count".into(),
+            Drive::Last => "last".into(),
         }
     }
     pub fn from_name(s: &str) -> Option<Drive> {
@@ -363,6 +382,12 @@ impl Drive {
             "poll" => Some(Drive::Poll),
             "collect_vec" => Some(Drive::CollectVec),
             "by_ref_collect" => Some(Drive::ByRefCollect),
+            "nth0" => Some(Drive::Nth0),
+            "fold" => Some(Drive::Fold),
+            "poll_then_collect_vec" => Some(Drive::PollThenCollect),
+            "count" => Some(Drive::Count),
+            "last" => Some(Drive::Last),
+            _ if s.starts_with("nth:") => s.strip_prefix("nth:").and_then(|n| n.parse().ok()).map(Drive::NthSkip),
             _ => s
                 .strip_prefix("take_bursts:")
                 .and_then(|n| n.parse().ok())
@@ -397,6 +422,14 @@ pub struct RunSpec {
     /// 0 = round-robin; otherwise the stream SplitMix64(sched_seed) picks which live
     /// instance the consumer polls next
     pub sched_seed: u64,
+    /// instances are built and driven one after the other (each to its end before the next is
+    /// even built) instead of being built up front and polled in an interleaved order
+    pub phased: bool,
+    /// compare every instance of a multi-instance run with a run of it alone, taken before the
+    /// joint run (clause F5). Off only for the hermeticity gate, whose oracle is "instances with
+    /// identical specifications have identical histories" and whose first instances must meet
+    /// a process in which nothing has run yet.
+    pub solo_baselines: bool,
 }
 
 impl InstSpec {
@@ -467,6 +500,8 @@ impl RunSpec {
         J::obj(vec![
             ("instances", J::A(self.instances.iter().map(|i| i.to_json()).collect())),
             ("sched_seed", J::U(self.sched_seed)),
+            ("phased", J::Bool(self.phased)),
+            ("solo_baselines", J::Bool(self.solo_baselines)),
         ])
     }
     pub fn from_json(j: &J) -> Result<RunSpec, String> {
@@ -477,6 +512,8 @@ impl RunSpec {
         Ok(RunSpec {
             instances,
             sched_seed: j.get("sched_seed").and_then(|x| x.as_u64()).unwrap_or(0),
+            phased: j.get("phased").and_then(|x| x.as_bool()).unwrap_or(false),
+            solo_baselines: j.get("solo_baselines").and_then(|x| x.as_bool()).unwrap_or(true),
         })
     }
 }
